@@ -22,32 +22,41 @@ struct Scn {
     hooks: usize,
     pre: &'static str,
     rest: &'static str,
+    /// listeners: 1, or 2 (two ports); clients connect to port number `target`
+    ports: usize,
+    target: usize,
 }
 
 const IDLE: &str = "lLoadF,lSetWaker,lRecheckF";
-const SCNS: [Scn; 11] = [
+const SCNS: [Scn; 13] = [
     Scn { name: "idle-shutdown", point: "", occurrence: 0, conns_before: 0, hook: "", main: "shutdown", panic: false, hooks: 0,
-        pre: "lLoadF,lSetWaker,lRecheckF,callerStore,callerLoad,callerNotify,lLoadT,lClose,lUncount,lUncLoad,compRead,compFinish", rest: "" },
+        pre: "lLoadF,lSetWaker,lRecheckF,callerStore,callerLoad,callerNotify,lLoadT,lClose,lUncount,lUncLoad,compRead,compFinish", rest: "", ports: 1, target: 0 },
     Scn { name: "lost-wakeup", point: "accept:loaded-false", occurrence: 1, conns_before: 0, hook: "shutdown", main: "none", panic: false, hooks: 0,
-        pre: "lLoadF,callerStore,callerLoad,callerNotify,lSetWaker,lRecheckT,lClose,lUncount,lUncLoad,compRead,compFinish", rest: "" },
+        pre: "lLoadF,callerStore,callerLoad,callerNotify,lSetWaker,lRecheckT,lClose,lUncount,lUncLoad,compRead,compFinish", rest: "", ports: 1, target: 0 },
     Scn { name: "waker-set-then-shutdown", point: "accept:waker-set", occurrence: 1, conns_before: 0, hook: "shutdown", main: "none", panic: false, hooks: 0,
-        pre: "lLoadF,lSetWaker,callerStore,callerLoad,callerNotify,lRecheckT,lClose,lUncount,lUncLoad,compRead,compFinish", rest: "" },
+        pre: "lLoadF,lSetWaker,callerStore,callerLoad,callerNotify,lRecheckT,lClose,lUncount,lUncLoad,compRead,compFinish", rest: "", ports: 1, target: 0 },
     Scn { name: "accepted-not-counted", point: "accept:got-stream", occurrence: 1, conns_before: 0, hook: "shutdown", main: "connect", panic: false, hooks: 0,
-        pre: "lLoadF,lSetWaker,lRecheckF,connect,lAcceptReg,callerStore,callerLoad,callerNotify,lCountSpawn,lLoadT,lClose,lUncount", rest: "cFinish,cLoad,compRead,compFinish" },
+        pre: "lLoadF,lSetWaker,lRecheckF,connect,lAcceptReg,callerStore,callerLoad,callerNotify,lCountSpawn,lLoadT,lClose,lUncount", rest: "cFinish,cLoad,compRead,compFinish", ports: 1, target: 0 },
     Scn { name: "counted-not-spawned", point: "accept:counted", occurrence: 1, conns_before: 0, hook: "shutdown", main: "connect", panic: false, hooks: 0,
-        pre: "lLoadF,lSetWaker,lRecheckF,connect,lAcceptReg,lCountSpawn,callerStore,callerLoad,callerNotify,lLoadT,lClose,lUncount", rest: "cFinish,cLoad,compRead,compFinish" },
+        pre: "lLoadF,lSetWaker,lRecheckF,connect,lAcceptReg,lCountSpawn,callerStore,callerLoad,callerNotify,lLoadT,lClose,lUncount", rest: "cFinish,cLoad,compRead,compFinish", ports: 1, target: 0 },
     Scn { name: "running-connection", point: "", occurrence: 0, conns_before: 1, hook: "", main: "shutdown", panic: false, hooks: 0,
-        pre: "lLoadF,lSetWaker,lRecheckF,connect,lAcceptReg,lCountSpawn,lLoadF,lSetWaker,lRecheckF,callerStore,callerLoad,callerNotify,lLoadT,lClose,lUncount", rest: "cFinish,cLoad,compRead,compFinish" },
+        pre: "lLoadF,lSetWaker,lRecheckF,connect,lAcceptReg,lCountSpawn,lLoadF,lSetWaker,lRecheckF,callerStore,callerLoad,callerNotify,lLoadT,lClose,lUncount", rest: "cFinish,cLoad,compRead,compFinish", ports: 1, target: 0 },
     Scn { name: "last-connection-ends-after-store", point: "shutdown:after-store", occurrence: 1, conns_before: 1, hook: "release0", main: "shutdown", panic: false, hooks: 0,
-        pre: "lLoadF,lSetWaker,lRecheckF,connect,lAcceptReg,lCountSpawn,lLoadF,lSetWaker,lRecheckF,callerStore,cFinish,callerLoad,callerNotify,lLoadT,lClose,lUncount,lUncLoad,compRead,compFinish", rest: "" },
+        pre: "lLoadF,lSetWaker,lRecheckF,connect,lAcceptReg,lCountSpawn,lLoadF,lSetWaker,lRecheckF,callerStore,cFinish,callerLoad,callerNotify,lLoadT,lClose,lUncount,lUncLoad,compRead,compFinish", rest: "", ports: 1, target: 0 },
     Scn { name: "last-connection-ends-before-notify", point: "shutdown:before-notify", occurrence: 1, conns_before: 1, hook: "release0", main: "shutdown", panic: false, hooks: 0,
-        pre: "lLoadF,lSetWaker,lRecheckF,connect,lAcceptReg,lCountSpawn,lLoadF,lSetWaker,lRecheckF,callerStore,callerLoad,cFinish,callerNotify,lLoadT,lClose,lUncount,lUncLoad,compRead,compFinish", rest: "" },
+        pre: "lLoadF,lSetWaker,lRecheckF,connect,lAcceptReg,lCountSpawn,lLoadF,lSetWaker,lRecheckF,callerStore,callerLoad,cFinish,callerNotify,lLoadT,lClose,lUncount,lUncLoad,compRead,compFinish", rest: "", ports: 1, target: 0 },
     Scn { name: "second-caller-at-uncount", point: "remove:before-flag", occurrence: 1, conns_before: 0, hook: "shutdown", main: "shutdown", panic: false, hooks: 0,
-        pre: "lLoadF,lSetWaker,lRecheckF,callerStore,callerLoad,callerNotify,lLoadT,lClose,lUncount,callerStore,callerLoad,callerNotify,lUncLoad,compRead,compFinish", rest: "" },
+        pre: "lLoadF,lSetWaker,lRecheckF,callerStore,callerLoad,callerNotify,lLoadT,lClose,lUncount,callerStore,callerLoad,callerNotify,lUncLoad,compRead,compFinish", rest: "", ports: 1, target: 0 },
     Scn { name: "handler-panics", point: "", occurrence: 0, conns_before: 1, hook: "", main: "shutdown", panic: true, hooks: 0,
-        pre: "lLoadF,lSetWaker,lRecheckF,connect,lAcceptReg,lCountSpawn,lLoadF,lSetWaker,lRecheckF,callerStore,callerLoad,callerNotify,lLoadT,lClose,lUncount", rest: "cFinish,cLoad,compRead,compFinish" },
+        pre: "lLoadF,lSetWaker,lRecheckF,connect,lAcceptReg,lCountSpawn,lLoadF,lSetWaker,lRecheckF,callerStore,callerLoad,callerNotify,lLoadT,lClose,lUncount", rest: "cFinish,cLoad,compRead,compFinish", ports: 1, target: 0 },
     Scn { name: "pre-shutdown-hook", point: "", occurrence: 0, conns_before: 0, hook: "", main: "shutdown", panic: false, hooks: 1,
-        pre: "hookRegister,lLoadF,lSetWaker,lRecheckF,callerStore,callerLoad,callerNotify,lLoadT,lClose,lUncount,lUncLoad,compRead", rest: "hookAck,compFinish" },
+        pre: "hookRegister,lLoadF,lSetWaker,lRecheckF,callerStore,callerLoad,callerNotify,lLoadT,lClose,lUncount,lUncLoad,compRead", rest: "hookAck,compFinish", ports: 1, target: 0 },
+    // two listeners (two ports): one of them has just accepted a connection (its waker slot is empty) when shutdown()
+    // notifies — the other one, parked in accept(), must be woken all the same (once for each of the two being the busy one)
+    Scn { name: "two-listeners-first-busy", point: "accept:got-stream", occurrence: 1, conns_before: 0, hook: "shutdown", main: "connect", panic: false, hooks: 0,
+        pre: "lLoadF,lSetWaker,lRecheckF,lLoadF,lSetWaker,lRecheckF,connect,lAcceptReg,callerStore,callerLoad,callerNotify,lCountSpawn,lLoadT,lClose,lUncount,lLoadT,lClose,lUncount", rest: "cFinish,cLoad,compRead,compFinish", ports: 2, target: 0 },
+    Scn { name: "two-listeners-second-busy", point: "accept:got-stream", occurrence: 1, conns_before: 0, hook: "shutdown", main: "connect", panic: false, hooks: 0,
+        pre: "lLoadF,lSetWaker,lRecheckF,lLoadF,lSetWaker,lRecheckF,connect,lAcceptReg,callerStore,callerLoad,callerNotify,lCountSpawn,lLoadT,lClose,lUncount,lLoadT,lClose,lUncount", rest: "cFinish,cLoad,compRead,compFinish", ports: 2, target: 1 },
 ];
 const _: &str = IDLE;
 
@@ -79,6 +88,7 @@ impl Nested {
         host.limiter.disable();
         let data = HostCollection::builder().insert(host).build();
         let port = free_port();
+        let port2 = if s.ports == 2 { free_port() } else { 0 };
         // the hook
         let mgr_slot: Arc<Mutex<Option<Arc<kvarn::shutdown::Manager>>>> = Arc::new(Mutex::new(None));
         let hits = Arc::new(AtomicUsize::new(0));
@@ -114,8 +124,12 @@ impl Nested {
         let early = s.conns_before == 0 && s.main == "none";
         if early { install(false); }
         let mgr = {
-            let pd = kvarn::PortDescriptor::unsecure(port, data).ipv4_only();
-            let m = rt.block_on(async move { kvarn::RunConfig::new().bind(pd).disable_ctl().execute().await });
+            let pd = kvarn::PortDescriptor::unsecure(port, data.clone()).ipv4_only();
+            let mut cfg = kvarn::RunConfig::new().bind(pd);
+            if s.ports == 2 {
+                cfg = cfg.bind(kvarn::PortDescriptor::unsecure(port2, data).ipv4_only());
+            }
+            let m = rt.block_on(async move { cfg.disable_ctl().execute().await });
             *mgr_slot.lock().unwrap() = Some(m.clone());
             m
         };
@@ -141,7 +155,7 @@ impl Nested {
         std::thread::sleep(Duration::from_millis(if early { 150 } else { 60 }));
         let mut clients = Vec::new();
         let connect = |clients: &mut Vec<std::net::TcpStream>| {
-            if let Ok(mut c) = std::net::TcpStream::connect(("127.0.0.1", port)) {
+            if let Ok(mut c) = std::net::TcpStream::connect(("127.0.0.1", if s.target == 1 { port2 } else { port })) {
                 use std::io::Write;
                 let _ = c.write_all(b"GET /slow HTTP/1.1\r\nhost: localhost\r\n\r\n");
                 clients.push(c);
@@ -170,7 +184,8 @@ impl Nested {
         { let (m, f) = (mgr.clone(), late.clone()); rt.spawn(async move { m.wait().await; f.store(true, Ordering::SeqCst); }); }
         for _ in 0..60 { if late.load(Ordering::SeqCst) { break; } std::thread::sleep(Duration::from_millis(10)); }
         let late = late.load(Ordering::SeqCst);
-        let closed = std::net::TcpStream::connect_timeout(&std::net::SocketAddr::from(([127, 0, 0, 1], port)), Duration::from_millis(300)).is_err();
+        let closed = std::net::TcpStream::connect_timeout(&std::net::SocketAddr::from(([127, 0, 0, 1], port)), Duration::from_millis(300)).is_err()
+            && (s.ports == 1 || std::net::TcpStream::connect_timeout(&std::net::SocketAddr::from(([127, 0, 0, 1], port2)), Duration::from_millis(300)).is_err());
         let count = mgr.get_connecions();
         kvarn::verif::set_callback(None);
         let hook_fired = s.point.is_empty() || fired.load(Ordering::SeqCst);
@@ -206,7 +221,7 @@ impl Group for Nested {
     fn driver_line(&self, line: &str) -> String {
         let name = line.split(' ').nth(1).unwrap();
         let s = SCNS.iter().find(|s| s.name == name).unwrap();
-        format!("c10.obs 1 [{}] [{}]", s.pre, s.rest)
+        format!("c10.obs {} [{}] [{}]", s.ports, s.pre, s.rest)
     }
     fn run_impl(&self, _ctx: &Ctx, line: &str) -> String {
         let name = line.split(' ').nth(1).unwrap();
